@@ -2,6 +2,8 @@
 """Developer tool: run every quick (or thorough) check under several seeds, report verdicts and the tightest floor margins.
    tools/sweep.py --seeds 1,2,3 [--tier quick] [--only C01,C02]"""
 import argparse, json, os, subprocess, sys, importlib, time
+if os.path.realpath(sys.executable) != os.path.realpath('/venv/bin/python') and os.path.exists('/venv/bin/python') and not os.environ.get('SWEEP_REEXEC'):
+    os.environ['SWEEP_REEXEC'] = '1'; os.execv('/venv/bin/python', ['/venv/bin/python'] + sys.argv)   # the property modules import numpy
 sys.path.insert(0, '/verif')
 ap = argparse.ArgumentParser(); ap.add_argument('--seeds', default='1,2'); ap.add_argument('--tier', default='quick'); ap.add_argument('--only', default=None)
 a = ap.parse_args()
